@@ -111,6 +111,26 @@ def record_sizes(run: Run, rnd: random.Random, thorough: bool, evs: list[dict[st
         evs.append({"op": "size", "hex": t.serialize(include_witness=True, check_validity=False).hex(), "size": t.size, "weight": t.weight, "vsize": t.vsize})
         for ti in t.vin[:2]:
             evs.append({"op": "inweight", "script": ti.script_sig.hex(), "witness": [w.hex() for w in ti.script_witness.stack], "weight": input_weight(ti.script_sig, ti.script_witness)})
+    # a transaction is an object that signers and builders write into: measured, written into, measured again -- each answer is that of the bytes at that moment
+    import copy
+
+    from btclib.script.witness import Witness
+    from btclib.tx import TxOut
+
+    for t0 in txs[: (40 if thorough else 14)]:
+        if not t0.vin:
+            continue
+        t = copy.deepcopy(t0)
+        steps = [("as built", lambda: None), ("a witness attached to the first input", lambda: setattr(t.vin[0], "script_witness", Witness([bytes(72), bytes(33)]))),
+                 ("a script_sig written into the last input", lambda: setattr(t.vin[-1], "script_sig", bytes(107))),
+                 ("an output appended", lambda: t.vout.append(TxOut(546, bytes.fromhex("0014") + bytes(20), check_validity=False))),
+                 ("every witness removed", lambda: [setattr(i_, "script_witness", Witness()) for i_ in t.vin]), ("the first output dropped", lambda: t.vout.pop(0) if t.vout else None),
+                 ("the lock time changed", lambda: setattr(t, "lock_time", t.lock_time ^ 1))]
+        for name, edit in steps:
+            got = outcome(lambda: (edit(), t.serialize(include_witness=True, check_validity=False).hex(), t.size, t.weight, t.vsize))
+            if isinstance(got, str) or got is None:
+                break          # (an edit this object does not take ends the history)
+            evs.append({"op": "size", "hex": got[1], "size": got[2], "weight": got[3], "vsize": got[4], "step": name})
     blocks = []
     for b in seeds.get("Block", [])[: (6 if thorough else 3)]:
         try:
@@ -268,7 +288,8 @@ def record_totals(run: Run, rnd: random.Random, thorough: bool, evs: list[dict[s
 
     for vals in cases:
         need = min(sum(vals), 4 * M) + 10**6          # inputs worth the payments and a million more, each within the range
-        chunks = [M] * (need // M) + [need % M]
+        C = M - 10**5                                  # (the spent output shares its transaction with small decoys: the whole of it stays within the range)
+        chunks = [C] * (need // C) + [need % C]
         ctxs = {
             "Tx": lambda: Tx(2, 0, vin, outs(vals)),
             "Tx.serialize": lambda: Tx(2, 0, vin, outs(vals), check_validity=False).serialize(include_witness=True),
@@ -332,17 +353,22 @@ class Kit:
     def input(self, typ: str, index: int, value: int, k: int, sighash: int = 0) -> tuple[Any, Any, dict[str, Any]]:
         """(PsbtIn carrying what its type is read from, the output it spends, the type record of the specification)."""
         from btclib.psbt.psbt import Psbt
+        from btclib.script.script_pub_key import ScriptPubKey
         from btclib.tx import OutPoint, Tx, TxIn, TxOut
 
         kind = self.kinds[typ]
         d = kind["desc"]
         prev_out = TxOut(value, d.script_pub_key(index), check_validity=False)
-        prev_tx = Tx(vin=[TxIn(OutPoint(bytes([k + 1]) * 32, 0))], vout=[prev_out], check_validity=False)
-        p = Psbt.from_tx(Tx(vin=[TxIn(OutPoint(prev_tx.id, 0))], vout=[TxOut(0, prev_out.script_pub_key)], check_validity=False), check_validity=False)
+        # the output spent sits among others of its transaction (0, 1 or 2 ahead of it, one behind), of other amounts and scripts: what an input is worth
+        # and what it is locked by is read at the outpoint's index and nowhere else
+        ahead = (k + index) % 3
+        decoys = [TxOut(1234 + 1000 * j, ScriptPubKey(bytes.fromhex("0014") + bytes([0x70 + j]) * 20, check_validity=False), check_validity=False) for j in range(3)]
+        prev_tx = Tx(vin=[TxIn(OutPoint(bytes([k + 1]) * 32, 0))], vout=[*decoys[:ahead], prev_out, decoys[2]], check_validity=False)
+        p = Psbt.from_tx(Tx(vin=[TxIn(OutPoint(prev_tx.id, ahead))], vout=[TxOut(0, prev_out.script_pub_key)], check_validity=False), check_validity=False)
         p.inputs[0].non_witness_utxo = prev_tx
         p = d.update_psbt_input(p, 0, index)
         pin = p.inputs[0]
-        pin.previous_tx_id, pin.output_index = prev_tx.id, 0
+        pin.previous_tx_id, pin.output_index = prev_tx.id, ahead
         if sighash:
             pin.sig_hash_type = sighash
         base = re.sub(r"-\d+$", "", typ)
@@ -355,6 +381,20 @@ class Kit:
             rec["m"] = kind["m"]
             rec["scriptlen"] = len(pin.witness_script or pin.redeem_script)
         return pin, prev_out, rec
+
+    def stages(self, psbt: Any, typs: list[str]) -> tuple[Any, Any]:
+        """The psbt after every signer answered, and that psbt finalized (signing is deterministic: the same signatures `sign` ends with)."""
+        from btclib.psbt.psbt import finalize
+        from btclib.psbt_signer import request_signatures
+
+        signers = []
+        for t in typs:
+            for s in self.kinds[t]["signers"]:
+                if s not in signers:
+                    signers.append(s)
+        for s in signers:
+            psbt = request_signatures(s, psbt)
+        return psbt, finalize(psbt)
 
     def sign(self, psbt: Any, typs: list[str]) -> Any:
         from btclib.psbt.psbt import extract_tx, finalize
@@ -471,6 +511,13 @@ def record_funding(run: Run, rnd: random.Random, thorough: bool, evs: list[dict[
                 continue
             stats["signed"] += 1
             evs.append({"op": "signed", "tx": signed.serialize(include_witness=True).hex(), "est_weight": est["weight"], "in_total": e["in_total"], "rate": e["rate"], "fee": e["fee"], "kinds": mix})
+            # the estimate asked again along the way -- of the psbt the signers answered, and of the finalized one -- is held to the same clause
+            for stage, staged in zip(("signed", "finalized"), kit.stages(built.psbt, mix)):
+                w = outcome(lambda: staged.weight_estimate())
+                if isinstance(w, str):
+                    evs.append({"op": "nonnumber", "fn": f"weight_estimate of the {stage} psbt " + "+".join(mix), "quote": "", "ctx": 0, "out": "ok-expected-got-" + w})
+                    continue
+                evs.append({"op": "signed", "tx": signed.serialize(include_witness=True).hex(), "est_weight": w, "in_total": e["in_total"], "rate": e["rate"], "fee": e["fee"], "kinds": mix, "stage": stage})
     return stats
 
 
